@@ -1,8 +1,8 @@
-(* C15 — spec text can never alter the structure of generated code: per rendering site, on the lexical
-   model Model/Escape.v (CPython string-literal / comment lexer + one function per site).
+(* C15 - spec text can never alter the structure of generated code: per rendering site, on the lexical
+   model Model/Escape.v (CPython string-literal / comment lexer + one function per site + the escapers).
    Only statements, [exact], and Print Assumptions live here.
-   Every site of the inventory Gen/T_C15.v is refuted at full strength on the unchanged tree (F15a-k) and proved
-   under the site's executable guard (the characters that are harmless there), for ALL strings. *)
+   After the fix wave every text site of the inventory Gen/T_C15.v has a FULL theorem for all strings of the stated
+   domain; the enum-typed default (F15l) is still refuted and proved only under its guard. *)
 From PG Require Import Lib.Strs Model.Escape Proofs.Escape Gen.T_C15.
 
 (* ---- the lexer: a run of ordinary characters is read back verbatim; json.dumps escaping is read back verbatim *)
@@ -17,66 +17,113 @@ Proof. exact lex_json_esc. Qed.
 Print Assumptions C15_lexer_json_escape.
 
 (* ---- value-carrying sites: the literal evaluates to exactly the original text and ends where the site's text ends *)
-Theorem C15_site_enum_value_partial : forall t rest, safe_dq_raw t = true -> hd_not_quote rest ->
-  lex_str (site_enum_value t ++ rest) = Some (t, rest).
-Proof. exact dq_raw_inert. Qed.
-Print Assumptions C15_site_enum_value_partial.
-Theorem C15_site_meta_key_partial : forall t rest, safe_dq_raw t = true -> hd_not_quote rest ->
-  lex_str (site_meta_key t ++ rest) = Some (t, rest).
-Proof. exact dq_raw_inert. Qed.
-Print Assumptions C15_site_meta_key_partial.
-Theorem C15_site_disc_prop_partial : forall t rest, safe_dq_raw t = true -> hd_not_quote rest ->
-  lex_str (site_disc_prop t ++ rest) = Some (t, rest).
-Proof. exact dq_raw_inert. Qed.
-Print Assumptions C15_site_disc_prop_partial.
-Theorem C15_site_disc_value_partial : forall t rest, safe_dq_raw t = true -> hd_not_quote rest ->
-  lex_str (site_disc_value t ++ rest) = Some (t, rest).
-Proof. exact dq_raw_inert. Qed.
-Print Assumptions C15_site_disc_value_partial.
-Theorem C15_site_query_key_partial : forall t rest, safe_dq_block t = true -> hd_not_quote rest ->
-  lex_str (site_query_key t ++ rest) = Some (t, rest).
-Proof. exact dq_block_inert. Qed.
-Print Assumptions C15_site_query_key_partial.
-Theorem C15_site_header_key_partial : forall t rest, safe_dq_block t = true -> hd_not_quote rest ->
-  lex_str (site_header_key t ++ rest) = Some (t, rest).
-Proof. exact dq_block_inert. Qed.
-Print Assumptions C15_site_header_key_partial.
-Theorem C15_site_media_type_partial : forall t rest, safe_dq_block t = true -> hd_not_quote rest ->
-  lex_str (site_media_type t ++ rest) = Some (t, rest).
-Proof. exact dq_block_inert. Qed.
-Print Assumptions C15_site_media_type_partial.
 (* json.dumps: inert for every string of BMP code points (quotes, backslashes, controls, NUL, lone surrogates included) *)
-Theorem C15_site_default_partial : forall t rest, safe_default t = true -> hd_not_quote rest ->
-  lex_str (site_default t ++ rest) = Some (t, rest).
-Proof. exact default_inert. Qed.
-Print Assumptions C15_site_default_partial.
 
-(* ---- docstring sites: the text stays inside one string literal *)
-Theorem C15_site_alias_doc_partial : forall t rest, safe_alias_doc t = true ->
+(* ---- REPAIRED value-carrying sites (fix: commits for F15a/b/i/h/f/j): FULL statements.
+   Model files use json.dumps(x, ensure_ascii=False): inert for every string of Unicode scalar values (what a UTF-8
+   document can contain).  Endpoint files use python_string_literal (ASCII-only escapes): inert for every string. *)
+Theorem C15_lexer_json_raw : forall tq t X, scalar t = true ->
+  lex_go tq Nrm (json_raw t ++ X) = prepend t (lex_go tq Nrm X).
+Proof. exact lex_json_raw. Qed.
+Print Assumptions C15_lexer_json_raw.
+Theorem C15_site_enum_value : forall t rest, scalar t = true -> hd_not_quote rest ->
+  lex_str (site_enum_value t ++ rest) = Some (t, rest).
+Proof. exact json_raw_inert. Qed.
+Print Assumptions C15_site_enum_value.
+Theorem C15_site_meta_key : forall t rest, scalar t = true -> hd_not_quote rest ->
+  lex_str (site_meta_key t ++ rest) = Some (t, rest).
+Proof. exact json_raw_inert. Qed.
+Print Assumptions C15_site_meta_key.
+Theorem C15_site_disc_prop : forall t rest, scalar t = true -> hd_not_quote rest ->
+  lex_str (site_disc_prop t ++ rest) = Some (t, rest).
+Proof. exact json_raw_inert. Qed.
+Print Assumptions C15_site_disc_prop.
+Theorem C15_site_disc_value : forall t rest, scalar t = true -> hd_not_quote rest ->
+  lex_str (site_disc_value t ++ rest) = Some (t, rest).
+Proof. exact json_raw_inert. Qed.
+Print Assumptions C15_site_disc_value.
+Theorem C15_site_default : forall t rest, scalar t = true -> hd_not_quote rest ->
+  lex_str (site_default t ++ rest) = Some (t, rest).
+Proof. exact json_raw_inert. Qed.
+Print Assumptions C15_site_default.
+Theorem C15_site_query_key : forall t rest, in_range t = true -> hd_not_quote rest ->
+  lex_str (site_query_key t ++ rest) = Some (t, rest).
+Proof. exact ascii_lit_inert. Qed.
+Print Assumptions C15_site_query_key.
+Theorem C15_site_header_key : forall t rest, in_range t = true -> hd_not_quote rest ->
+  lex_str (site_header_key t ++ rest) = Some (t, rest).
+Proof. exact ascii_lit_inert. Qed.
+Print Assumptions C15_site_header_key.
+Theorem C15_site_media_type : forall t rest, in_range t = true -> hd_not_quote rest ->
+  lex_str (site_media_type t ++ rest) = Some (t, rest).
+Proof. exact ascii_lit_inert. Qed.
+Print Assumptions C15_site_media_type.
+(* repr(str) (the !r site added by the F04g fix): whatever quote repr chooses and whatever Python's Unicode data base
+   classifies as printable above ASCII (oracle pr, with pr_ok: printable => not a surrogate / line separator / out of range) *)
+Theorem C15_site_media_repr : forall pr t rest, pr_ok pr -> in_range t = true ->
+  match rest with c :: _ => c <> 34 /\ c <> 39 | [] => True end ->
+  lex_lit (site_media_repr pr t ++ rest) = Some (t, rest).
+Proof. exact media_repr_inert. Qed.
+Print Assumptions C15_site_media_repr.
+Theorem C15_site_field_comment : forall t, scalar t = true -> single_physical_line (site_field_comment t) = true.
+Proof. exact field_comment_inert. Qed.
+Print Assumptions C15_site_field_comment.
+(* regression: the former witnesses of F15a, F15e, F15f, F15h, F15j now meet the statement *)
+Theorem C15_fixed_witnesses :
+  lex_str (site_enum_value w_quote ++ []) = Some (w_quote, []) /\ lex_str (site_enum_value w_escn ++ []) = Some (w_escn, []) /\
+  single_physical_line (site_field_comment w_cr) = true /\
+  lex_str (site_query_key w_quote ++ []) = Some (w_quote, []) /\ lex_str (site_header_key w_ff ++ []) = Some (w_ff, []) /\
+  lex_str (site_default w_astral ++ []) = Some (w_astral, []) /\
+  lex_str (site_media_type (w_quote ++ w_astral) ++ []) = Some (w_quote ++ w_astral, []).
+Proof. repeat split. Qed.
+Print Assumptions C15_fixed_witnesses.
+Theorem C15_guard_nonvacuous :
+  scalar (ex_text ++ [34; 92; 10; 13; 0; 127; 133; 8232; 128512]) = true /\
+  in_range (ex_text ++ [34; 39; 92; 10; 0; 55296; 128512]) = true /\
+  safe_enum_default [108;111;119;45;112;114;105;111;32;50] = true.
+Proof. exact guards_nonvacuous. Qed.
+Print Assumptions C15_guard_nonvacuous.
+
+(* ---- REPAIRED docstring sites (fix: commits for F15c/d/g/k): the text stays inside one string literal, for every
+   string of Unicode scalar values.  escape_docstring_text = NUL -> space, backslash doubled, triple quotes escaped. *)
+Theorem C15_site_alias_doc : forall t rest, scalar t = true ->
   site_alias_doc t = [] \/ exists v, lex_str (site_alias_doc t ++ rest) = Some (v, rest).
 Proof. exact alias_doc_inert. Qed.
-Print Assumptions C15_site_alias_doc_partial.
-Theorem C15_site_docwriter_partial : forall t out rest, safe_doc_raw t = true -> site_docwriter_rel t out = true ->
+Print Assumptions C15_site_alias_doc.
+(* DocumentationWriter: relational (textwrap only edits white space; every line is then escaped) *)
+Theorem C15_site_docwriter : forall t out rest, scalar t = true -> site_docwriter_rel t out = true ->
   exists v, lex_str (out ++ rest) = Some (v, rest).
 Proof. exact docwriter_inert. Qed.
-Print Assumptions C15_site_docwriter_partial.
-Theorem C15_site_block_doc_partial : forall pre post t rest,
-  safe_doc_raw pre = true -> safe_doc_raw t = true -> isoq post = true ->
-  exists v, lex_str (site_block_doc pre post t ++ rest) = Some (v, rest).
-Proof. exact block_doc_inert_isoq. Qed.
-Print Assumptions C15_site_block_doc_partial.
-Theorem C15_site_block_line_partial : forall t rest, safe_doc_raw t = true ->
+Print Assumptions C15_site_docwriter.
+(* hand-written docstring templates: fixed text pre (no quote/backslash), the escaped value, then a character that is
+   neither quote nor backslash and fixed text whose quotes are isolated *)
+Theorem C15_site_block_doc : forall pre sep post t rest,
+  safe_doc_raw pre = true -> scalar t = true -> sep_ok sep = true -> isoq post = true ->
+  exists v, lex_str (site_block_doc pre (sep :: post) t ++ rest) = Some (v, rest).
+Proof. exact block_doc_inert. Qed.
+Print Assumptions C15_site_block_doc.
+Theorem C15_site_block_line : forall t rest, scalar t = true ->
   exists v, lex_str (site_block_line t ++ rest) = Some (v, rest).
 Proof. exact block_line_inert. Qed.
-Print Assumptions C15_site_block_line_partial.
-Theorem C15_site_tag_doc_partial : forall t rest, safe_doc_raw t = true ->
+Print Assumptions C15_site_block_line.
+Theorem C15_site_tag_doc : forall t rest, scalar t = true ->
   exists v, lex_str (site_tag_doc t ++ rest) = Some (v, rest).
 Proof. exact tag_doc_inert. Qed.
-Print Assumptions C15_site_tag_doc_partial.
-Theorem C15_site_client_title_partial : forall version t rest, safe_doc_raw version = true -> safe_doc_raw t = true ->
+Print Assumptions C15_site_tag_doc.
+Theorem C15_site_client_title : forall version t rest, scalar version = true -> scalar t = true ->
   exists v, lex_str (site_client_title version t ++ rest) = Some (v, rest).
 Proof. exact client_title_inert. Qed.
-Print Assumptions C15_site_client_title_partial.
+Print Assumptions C15_site_client_title.
+(* regression: the former witnesses of F15c, F15d, F15g, F15k *)
+Theorem C15_fixed_doc_witnesses :
+  (exists v, lex_str (site_alias_doc w_endq ++ []) = Some (v, [])) /\
+  (site_docwriter_rel q3 (q3 ++ [10] ++ esc_q3 ++ [10] ++ q3) = true /\
+   exists v, lex_str ((q3 ++ [10] ++ esc_q3 ++ [10] ++ q3) ++ []) = Some (v, [])) /\
+  (exists v, lex_str (site_client_title [49;46;48] q3 ++ []) = Some (v, [])) /\
+  (exists v, lex_str (site_tag_doc q3 ++ []) = Some (v, [])) /\
+  (exists v, lex_str (site_block_line w_bsx ++ []) = Some (v, [])).
+Proof. exact (conj fixed_F15c (conj fixed_F15d (conj fixed_F15g fixed_F15k))). Qed.
+Print Assumptions C15_fixed_doc_witnesses.
 
 (* ---- enum-typed default: the text is used UNQUOTED as an attribute name; it is an identifier for text made of
    ASCII letters, digits, underscore, dash, space that does not start with a digit *)
@@ -88,68 +135,10 @@ Proof. exact enum_default_refuted. Qed.
 Print Assumptions C15_refuted_F15l.
 
 (* ---- comment site *)
-Theorem C15_site_field_comment_partial : forall t, safe_field_comment t = true ->
-  single_physical_line (site_field_comment t) = true.
-Proof. exact field_comment_inert. Qed.
-Print Assumptions C15_site_field_comment_partial.
 
-(* ---- the full statement is false at every site: witnesses (each replays on the real generator) *)
-Theorem C15_refuted_F15a : safe_dq_raw w_quote = false /\ lex_str (site_enum_value w_quote ++ []) <> Some (w_quote, []).
-Proof. exact dq_raw_refuted. Qed.
-Print Assumptions C15_refuted_F15a.
-Theorem C15_refuted_F15a_value : safe_dq_raw w_escn = false /\ lex_str (site_enum_value w_escn ++ []) = Some ([99; 10], []).
-Proof. exact dq_raw_refuted_value. Qed.
-Print Assumptions C15_refuted_F15a_value.
-Theorem C15_refuted_F15b : safe_dq_raw w_quote = false /\ lex_str (site_meta_key w_quote ++ []) <> Some (w_quote, []).
-Proof. exact dq_raw_refuted. Qed.
-Print Assumptions C15_refuted_F15b.
-Theorem C15_refuted_F15c : safe_alias_doc w_endq = false /\ site_alias_doc w_endq <> [] /\
-  forall v, lex_str (site_alias_doc w_endq ++ []) <> Some (v, []).
-Proof. exact alias_refuted. Qed.
-Print Assumptions C15_refuted_F15c.
-Theorem C15_refuted_F15d : safe_doc_raw q3 = false /\ site_docwriter_rel q3 w_docw_out = true /\
-  forall v, lex_str (w_docw_out ++ []) <> Some (v, []).
-Proof. exact docwriter_refuted. Qed.
-Print Assumptions C15_refuted_F15d.
-Theorem C15_refuted_F15d_escape : safe_doc_raw w_bsx = false /\ site_docwriter_rel w_bsx w_docw_out_bsx = true /\
-  lex_str (w_docw_out_bsx ++ []) = None.
-Proof. exact docwriter_refuted_bsx. Qed.
-Print Assumptions C15_refuted_F15d_escape.
-Theorem C15_refuted_F15e : safe_field_comment w_cr = false /\ single_physical_line (site_field_comment w_cr) = false.
-Proof. exact comment_refuted. Qed.
-Print Assumptions C15_refuted_F15e.
-Theorem C15_refuted_F15f : safe_dq_block w_quote = false /\ lex_str (site_query_key w_quote ++ []) <> Some (w_quote, []).
-Proof. exact dq_block_refuted. Qed.
-Print Assumptions C15_refuted_F15f.
-Theorem C15_refuted_F15f_formfeed : safe_dq_block w_ff = false /\ safe_dq_raw w_ff = true /\ lex_str (site_header_key w_ff ++ []) = None.
-Proof. exact dq_block_refuted_ff. Qed.
-Print Assumptions C15_refuted_F15f_formfeed.
-Theorem C15_refuted_F15g : safe_doc_raw q3 = false /\ forall v, lex_str (site_client_title [49;46;48] q3 ++ []) <> Some (v, []).
-Proof. exact client_title_refuted. Qed.
-Print Assumptions C15_refuted_F15g.
-Theorem C15_refuted_F15h : safe_default w_astral = false /\ lex_str (site_default w_astral ++ []) = Some ([55357; 56832], []).
-Proof. exact default_refuted. Qed.
-Print Assumptions C15_refuted_F15h.
-Theorem C15_refuted_F15i : safe_dq_raw w_quote = false /\ lex_str (site_disc_prop w_quote ++ []) <> Some (w_quote, []).
-Proof. exact dq_raw_refuted. Qed.
-Print Assumptions C15_refuted_F15i.
-Theorem C15_refuted_F15j : safe_dq_block w_quote = false /\ lex_str (site_media_type w_quote ++ []) <> Some (w_quote, []).
-Proof. exact dq_block_refuted. Qed.
-Print Assumptions C15_refuted_F15j.
-Theorem C15_refuted_F15k : safe_doc_raw q3 = false /\ forall v, lex_str (site_tag_doc q3 ++ []) <> Some (v, []).
-Proof. exact tag_doc_refuted. Qed.
-Print Assumptions C15_refuted_F15k.
-Theorem C15_refuted_F15k_escape : safe_doc_raw w_bsx = false /\ lex_str (site_block_line w_bsx ++ []) = None.
-Proof. exact block_line_refuted. Qed.
-Print Assumptions C15_refuted_F15k_escape.
+(* ---- still refuted: the enum-typed default (witness replays on the real generator) *)
 
 (* ---- guards are met by non-trivial text (non-ASCII, braces, %; quotes/backslashes/controls where the site escapes) *)
-Theorem C15_guard_nonvacuous :
-  safe_dq_raw ex_text = true /\ safe_dq_block ex_text = true /\ safe_default (ex_text ++ [34; 92; 10; 0; 127; 55296]) = true /\
-  safe_doc_raw (ex_text ++ [10; 13; 9]) = true /\ safe_field_comment (ex_text ++ [34; 92; 10; 12; 8232]) = true /\
-  safe_alias_doc (ex_text ++ [34; 34; 34; 34; 92; 34; 92; 110; 13; 10; 120]) = true.
-Proof. exact guards_nonvacuous. Qed.
-Print Assumptions C15_guard_nonvacuous.
 
 (* ---- every inventoried interpolation site (regenerated from the source on every run) is either not free text (0)
    or one of the modelled sites; bound: the list Gen.T_C15.site_inventory *)
